@@ -49,6 +49,18 @@ TABLE = {
         note="Trusted: strict/lenient literal grammars in vlib/reflex.py and the malformed-family predicates in vlib/props/c10.py.",
         ref="DESIGN.md section 4, C10",
     ),
+    "C14": dict(
+        technique="exhaustive sentinel-instance sweep over the classes of _c_ast.cfg (read by an independent cfg parser) + instrumented visitors and show() on Hypothesis-generated and corpus ASTs against the preorder computed from the cfg",
+        text="All node classes x all subsets of absent children x sequence shapes are enumerated completely and compared with the cfg (signature, slots, attr_names, children(), iteration); traversal (generic, selective with random class subsets, reused visitors) and show() line counts are checked on generated and corpus ASTs against a preorder derived from the cfg, not from children().",
+        note="Trusted: the 10-line cfg reader; show() line rule is not asserted for ASTs with node-valued attributes (known finding F29).",
+        ref="DESIGN.md section 4, C14",
+    ),
+    "C15": dict(
+        technique="round-trip oracles (eval(repr), pickle protocols 2..HIGHEST, deepcopy) with structural dump equality incl. coordinates, id-disjointness and mutate-the-copy independence on Hypothesis-generated ASTs with hostile literals and on the corpus",
+        text="Generated translation units whose string/character constants and pragma texts come from a hostile pool (quotes, backslashes, escapes, non-ASCII, repr look-alikes) and the corpus are parsed; each AST is rebuilt through repr/eval, every supported pickle protocol and deepcopy and compared structurally, by generated text, by object identity and by mutating the copy. Statistical over generated programs.",
+        note="Trusted: astdump.dump (walks __slots__, including node-valued attributes and Coord fields).",
+        ref="DESIGN.md section 4, C15",
+    ),
 }
 
 NOT_YET = "check not built yet in this session (work in progress; see DESIGN.md section 9 for the order of work)"
